@@ -366,8 +366,12 @@ def check_library(ctx, lib):
             if r[0] == "field" and r[2] == "goal":
                 r = r[1]
             ctx.expect(unify(pat(want), r) is not None and not tables.semis(t), R, fn["npath"] + "|delegates", site_of(fn), "must be %s on the unchanged arms; found %s" % (want, show(t, maxdepth=4)[:200]))
-    # Conde::from_conjunctions: one conjunction per arm, all arms, in order
-    RB = "C13.K6.conde-builder"
+    check_conde_builder(ctx, lib, "C13.K6.conde-builder")
+
+
+def check_conde_builder(ctx, lib, RB):
+    """Conde::from_conjunctions: one conjunction per arm, all arms, in order."""
+    ev = streams.plain_evaluator(lib)
     fn = streams.getfn(ctx, lib, RB, "crate::operator::conde::Conde::from_conjunctions")
     if fn:
         t = sym.Evaluator(lib, named_lets=True, extra_identity=streams.GOAL_CAST).fn_term(fn)
